@@ -80,8 +80,8 @@ def gen_case(rng, tier, methods=('cycles', 'amp'), centers=('peak', 'trough'), k
                 bk['amp_threshes'] = rng.choice([(1, 2), (0.5, 1.5), (1, 1.5), (0.8, 1.2)])
             if rng.random() < 0.5:
                 bk['min_n_cycles'] = rng.choice([1, 2, 3, 4, 5])
-            if rng.random() < 0.1:
-                bk['min_burst_duration'] = round(rng.choice([1, 2, 3]) * s['period'] / s['fs'], 6)
+            if rng.random() < 0.25:
+                bk['min_burst_duration'] = rng.choice([0, 0, round(rng.choice([1, 2, 3]) * s['period'] / s['fs'], 6)])
         c['thr'], c['bk'] = thr, bk
     if extra:
         c.update(extra)
@@ -110,8 +110,9 @@ def table_to_rows(df, center):
     return rows, have_samples
 
 
-def call_compute_features(sig, c, center=None, return_samples=True, fs=None, f_range=None):
-    from bycycle.features import compute_features
+def build_kwargs(c):
+    """The caller's option objects for one case (built ONCE and shared by every call of the case,
+    as a user would who keeps his settings in variables)."""
     kw = {}
     if c['fek'] is not None:
         kw['find_extrema_kwargs'] = _deep(c['fek'])
@@ -119,6 +120,13 @@ def call_compute_features(sig, c, center=None, return_samples=True, fs=None, f_r
         kw['threshold_kwargs'] = dict(c['thr'])
     if c['bk'] is not None:
         kw['burst_kwargs'] = dict(c['bk'])
+    return kw
+
+
+def call_compute_features(sig, c, center=None, return_samples=True, fs=None, f_range=None, kw=None):
+    from bycycle.features import compute_features
+    if kw is None:
+        kw = build_kwargs(c)
     return compute_features(sig, fs or c['fs'], tuple(f_range or c['f_range']), center_extrema=center or c['center'],
                             burst_method=c['method'], return_samples=return_samples, **kw)
 
@@ -184,8 +192,9 @@ def run_pipe(c):
     except Exception as e:
         return {'skip': 'reference kernel failed: %s: %s' % (type(e).__name__, e)}
     snap = sig.copy()
+    kw = build_kwargs(c)
     try:
-        df = call_compute_features(sig, c, return_samples=True)
+        df = call_compute_features(sig, c, return_samples=True, kw=kw)
         rows, hs = table_to_rows(df, c['center'])
         out['rows'] = _jsonable(rows)
         out['columns'] = sorted(df.columns)
@@ -195,7 +204,7 @@ def run_pipe(c):
     out['sig_unchanged'] = bool(np.array_equal(sig, snap))
     if 'rows' in out and not c['return_samples']:
         try:
-            df2 = call_compute_features(sig, c, return_samples=False)
+            df2 = call_compute_features(sig, c, return_samples=False, kw=kw)
             rows2, hs2 = table_to_rows(df2, c['center'])
             out['nosamples_ok'] = (not any(col.startswith('sample_') for col in df2.columns)) and \
                 _jsonable(rows2) == [dict(r, s=None) for r in out['rows']]
@@ -204,26 +213,26 @@ def run_pipe(c):
     if 'rows' in out and c.get('want_mirror'):
         other = 'trough' if c['center'] == 'peak' else 'peak'
         try:
-            dfm = call_compute_features(-sig, c, center=other)
+            dfm = call_compute_features(-sig, c, center=other, kw=kw)
             out['mirror'] = _jsonable(table_to_rows(dfm, other)[0])
         except Exception as e:
             out['mirror_err'] = exc_kind(e)
     if 'rows' in out and c.get('scale_pow') is not None:
         try:
-            dfs = call_compute_features(sig * (2.0 ** c['scale_pow']), c)
+            dfs = call_compute_features(sig * (2.0 ** c['scale_pow']), c, kw=kw)
             out['scaled'] = _jsonable(table_to_rows(dfs, c['center'])[0])
         except Exception as e:
             out['scaled_err'] = exc_kind(e)
     if 'rows' in out and c.get('fs_mult') is not None:
         try:
             m = c['fs_mult']
-            c2 = dict(c)
+            kw2 = kw
             if c['method'] == 'amp' and c['bk'] and 'min_burst_duration' in c['bk']:
-                c2['bk'] = dict(c['bk'], min_burst_duration=c['bk']['min_burst_duration'] / m)
+                kw2 = dict(kw, burst_kwargs=dict(kw['burst_kwargs'], min_burst_duration=c['bk']['min_burst_duration'] / m))
             if c['fek'] and 'n_seconds' in (c['fek'].get('filter_kwargs') or {}):
                 out['fs_skip'] = True
             else:
-                dff = call_compute_features(sig, c2, fs=c['fs'] * m, f_range=[c['f_range'][0] * m, c['f_range'][1] * m])
+                dff = call_compute_features(sig, c, fs=c['fs'] * m, f_range=[c['f_range'][0] * m, c['f_range'][1] * m], kw=kw2)
                 out['fsmult'] = _jsonable(table_to_rows(dff, c['center'])[0])
         except Exception as e:
             out['fsmult_err'] = exc_kind(e)
